@@ -217,6 +217,29 @@ def check_lenlist(case, rec):
         f"len_scale_vec {model.len_scale_vec} != given list {ls}",
         tags,
     )
+    # the same list assigned to a model that has been *used* before: every geometric method follows the new ratios at once
+    ang = [0.3 * (i + 1) for i in range(geo.n_angles(dim))]
+    m2 = lib(gs.Exponential, dim=dim, len_scale=1.7, anis=case["anis"], angles=ang, _tags=tags)
+    x = np.array([[0.7 * (i + 1) * (-1) ** j + 0.1 * j for j in range(5)] for i in range(dim)], dtype=float)
+    m2.isometrize(x)
+    m2.anisometrize(x)
+    m2.cov_spatial(x)
+    m2.len_scale = case["len_scale"]
+    require(np.allclose(m2.anis, want, rtol=1e-14, atol=0), f"len_scale list assigned to a used model -> anis {m2.anis}, documented {want}", tags)
+    M = geo.iso_matrix(dim, ang, list(want))
+    iso = np.asarray(lib(m2.isometrize, x, _tags=tags))
+    sc = float(np.max(np.abs(M))) * float(np.max(np.abs(x)))
+    require(
+        float(np.max(np.abs(iso - M @ x))) <= 1e-12 * sc,
+        f"isometrize after `len_scale = {case['len_scale']}` on a used model does not follow the new ratios {want.tolist()} "
+        f"(deviation {float(np.max(np.abs(iso - M @ x))):.3g})",
+        dict(tags, kind="stale_after_len_scale_list"),
+    )
+    back = np.asarray(lib(m2.anisometrize, iso, _tags=tags))
+    require(float(np.max(np.abs(back - x))) <= 1e-11 * (1 + sc), "anisometrize(isometrize(x)) != x after a len_scale list assignment", dict(tags, kind="stale_after_len_scale_list"))
+    cs_ = np.asarray(lib(m2.cov_spatial, x, _tags=tags))
+    co_ = m2.covariance(np.linalg.norm(M @ x, axis=0))
+    require(float(np.max(np.abs(cs_ - co_))) <= 1e-12 * float(m2.var), "cov_spatial(x) != covariance(|S^-1 R^T x|) after a len_scale list assignment", dict(tags, kind="stale_after_len_scale_list"))
     rec.nontrivial(len(set(ls)) > 1)
 
 
